@@ -253,8 +253,9 @@ def property_checks(tf, cname, p, x, lo, hi):
     if abs(xi - x) > 1e-8 * max(1, abs(x)):
         yield "inv_tf", xi, x
     for kind, f, df in (("d1", "transform", "deriv"), ("d2", "deriv", "deriv2"), ("d3", "deriv2", "deriv3")):
-        num, ana = fd(t(f), x, h), t(df)(x)
-        if abs(num - ana) > scale(num, ana):
+        num1, num, ana = fd(t(f), x, h), fd(t(f), x, h / 2), t(df)(x)
+        fd_err = abs(num1 - num)  # the two step sizes must agree, otherwise finite differences cannot judge this point
+        if fd_err <= 1e-7 * max(1.0, abs(num)) and abs(num - ana) > 100 * fd_err + scale(num, ana):
             yield kind, ana, num
     d1, d2, d3 = t("deriv")(x), t("deriv2")(x), t("deriv3")(x)
     # inverse derivatives: the inverse-function-theorem values computed from the implementation's own d1, d2, d3 at x = inverse(r)
@@ -322,11 +323,13 @@ def sweep(ctx: Ctx):
         npts += 1
         for kind, obs, exp in property_checks(tf, cname, p, x, lo, hi):
             first.setdefault((cname, kind), (p, x, obs, exp))
-    seen_ends = set()
-    for cname, p, x in plan:
-        if cname in seen_ends:
-            continue
-        seen_ends.add(cname)
+    # end points: a fixed parameter corpus first (so that a finding reproduces under every seed), then the sampled parameters
+    ends_plan = []
+    for kk in (1, 1.5, 2, 2.5, 3, 7):
+        ends_plan += [("KnowlesRTransform", dict(rmin=0.0, R=1.5, k=kk)), ("HandyRTransform", dict(rmin=0.0, R=1.5, m=kk)),
+                      ("HandyModRTransform", dict(rmin=0.0, rmax=2.0 ** kk + 10.0, m=kk))]
+    ends_plan += [(c, p) for c, p, _ in plan]
+    for cname, p in ends_plan:
         for kind, obs, exp in endpoint_checks(cname, p):
             first.setdefault((cname, "ends"), (p, kind, obs, exp))
     ctx.cov["sweep_points"] = npts
